@@ -39,3 +39,8 @@ def run(ctx):
     duffy.remaps(ctx)
     duffy.check(ctx, max_degree=4 if ctx.thorough else 2)
     rules.kernel_specs(ctx, ("laplace",))
+    # "once the regular and singular quadrature orders are raised": every order a user may raise them to reads the tables
+    from . import c12
+
+    c12.triangle(ctx)
+    c12.gauss(ctx)
